@@ -214,7 +214,7 @@ def _rv_has_index(rv):
     return any(any("ix" in e for e in p["p"]) for p in _rv_places(rv))
 
 
-def idx_r1(ctx, exclude_adts=(), floor=13):
+def idx_r1(ctx, exclude_adts=(), floor=11):
     uses = positional_uses(ctx)
     n = 0
     for u in uses:
